@@ -39,14 +39,17 @@ Record ychan := {
   yc_results : list N;       (* ghost: what the calls returned, oldest first *)
   yc_mail : list call;       (* mailbox caller -> I/O thread *)
   yc_pend : list N;          (* server: synchronous requests read and not yet answered *)
-  yc_replyq : list N }.      (* reply queue I/O thread -> caller *)
+  yc_replyq : list N;        (* reply queue I/O thread -> caller *)
+  yc_failed : bool }.        (* a call returned an error: the caller gave up *)
 
 Record sys := {
   y_ch : N -> ychan;
   y_outbuf : list (N * call);    (* the I/O thread's out-buffer, whole frames *)
   y_outwire : list (N * call);   (* written, not yet read by the server *)
   y_inwire : list (N * N);       (* server -> client: (channel, reply) *)
-  y_fail : bool }.               (* a reply found its queue full: FrameUnexpected, the loop ends *)
+  y_fail : bool;                 (* a reply found its queue full: FrameUnexpected, the loop ends *)
+  y_dead : bool }.               (* the I/O thread has ended (EOF, I/O error, missed heartbeats, a close, ...)
+                                    and dropped its ends of every queue *)
 
 Inductive act :=
 | ASend (n : N)                  (* caller n: hand the next request to the mailbox *)
@@ -55,11 +58,12 @@ Inductive act :=
 | AWrite (k : nat)               (* I/O: socket writable, k frames accepted *)
 | ASrvRead                       (* server: read the next frame *)
 | ASrvAnswer (n : N)             (* server: answer the oldest unanswered request of channel n *)
-| ARead.                         (* I/O: socket readable, one frame processed *)
+| ARead                          (* I/O: socket readable, one frame processed *)
+| ADie.                          (* the I/O thread ends, for whatever reason, at any moment *)
 
 Definition with_ch (s : sys) (n : N) (c : ychan) : sys :=
   {| y_ch := yupd (y_ch s) n c; y_outbuf := y_outbuf s; y_outwire := y_outwire s;
-     y_inwire := y_inwire s; y_fail := y_fail s |}.
+     y_inwire := y_inwire s; y_fail := y_fail s; y_dead := y_dead s |}.
 
 Section Step.
   Variable answer : N -> N -> N.   (* the server's reply to a request on a channel *)
@@ -71,12 +75,19 @@ Section Step.
     match a with
     | ASend n =>
         let c := y_ch s n in
-        match yc_wait c, yc_prog c with
+        match yc_wait c || yc_failed c, yc_prog c with
         | false, x :: rest =>
-            if N.of_nat (length (yc_mail c)) <? bound then
+            if y_dead s then
+              (* the mailbox's receiver is gone: the send fails, the call returns an error
+                 (check_recv_for_error: the I/O thread's verdict if one is queued, else
+                 EventLoopDropped) - at once, nothing is handed over *)
+              with_ch s n {| yc_prog := yc_prog c; yc_wait := false; yc_issued := yc_issued c;
+                             yc_results := yc_results c; yc_mail := yc_mail c;
+                             yc_pend := yc_pend c; yc_replyq := yc_replyq c; yc_failed := true |}
+            else if N.of_nat (length (yc_mail c)) <? bound then
               with_ch s n {| yc_prog := rest; yc_wait := is_sync x; yc_issued := yc_issued c ++ [x];
                              yc_results := yc_results c; yc_mail := yc_mail c ++ [x];
-                             yc_pend := yc_pend c; yc_replyq := yc_replyq c |}
+                             yc_pend := yc_pend c; yc_replyq := yc_replyq c; yc_failed := false |}
             else s                                  (* mailbox full: the send blocks *)
         | _, _ => s
         end
@@ -84,22 +95,32 @@ Section Step.
         let c := y_ch s n in
         match yc_wait c, yc_replyq c with
         | true, v :: rest =>
+            (* a queued reply is delivered also when the sender is gone *)
             with_ch s n {| yc_prog := yc_prog c; yc_wait := false; yc_issued := yc_issued c;
                            yc_results := yc_results c ++ [v]; yc_mail := yc_mail c;
-                           yc_pend := yc_pend c; yc_replyq := rest |}
-        | _, _ => s                                 (* nothing there yet: the recv blocks *)
+                           yc_pend := yc_pend c; yc_replyq := rest; yc_failed := yc_failed c |}
+        | true, [] =>
+            if y_dead s then
+              (* empty and disconnected: the call returns an error *)
+              with_ch s n {| yc_prog := yc_prog c; yc_wait := false; yc_issued := yc_issued c;
+                             yc_results := yc_results c; yc_mail := yc_mail c;
+                             yc_pend := yc_pend c; yc_replyq := []; yc_failed := true |}
+            else s                                  (* nothing there yet: the recv blocks *)
+        | _, _ => s
         end
     | ADrain n k =>
+        if y_dead s then s else
         let c := y_ch s n in
         {| y_ch := yupd (y_ch s) n {| yc_prog := yc_prog c; yc_wait := yc_wait c; yc_issued := yc_issued c;
                                      yc_results := yc_results c; yc_mail := skipn k (yc_mail c);
-                                     yc_pend := yc_pend c; yc_replyq := yc_replyq c |};
+                                     yc_pend := yc_pend c; yc_replyq := yc_replyq c; yc_failed := yc_failed c |};
            y_outbuf := y_outbuf s ++ map (pair n) (firstn k (yc_mail c));
-           y_outwire := y_outwire s; y_inwire := y_inwire s; y_fail := false |}
+           y_outwire := y_outwire s; y_inwire := y_inwire s; y_fail := false; y_dead := y_dead s |}
     | AWrite k =>
+        if y_dead s then s else
         {| y_ch := y_ch s; y_outbuf := skipn k (y_outbuf s);
            y_outwire := y_outwire s ++ firstn k (y_outbuf s);
-           y_inwire := y_inwire s; y_fail := false |}
+           y_inwire := y_inwire s; y_fail := false; y_dead := y_dead s |}
     | ASrvRead =>
         match y_outwire s with
         | [] => s
@@ -108,9 +129,9 @@ Section Step.
             {| y_ch := if is_sync x
                        then yupd (y_ch s) n {| yc_prog := yc_prog c; yc_wait := yc_wait c; yc_issued := yc_issued c;
                                               yc_results := yc_results c; yc_mail := yc_mail c;
-                                              yc_pend := yc_pend c ++ [snd x]; yc_replyq := yc_replyq c |}
+                                              yc_pend := yc_pend c ++ [snd x]; yc_replyq := yc_replyq c; yc_failed := yc_failed c |}
                        else y_ch s;
-               y_outbuf := y_outbuf s; y_outwire := rest; y_inwire := y_inwire s; y_fail := false |}
+               y_outbuf := y_outbuf s; y_outwire := rest; y_inwire := y_inwire s; y_fail := false; y_dead := y_dead s |}
         end
     | ASrvAnswer n =>
         let c := y_ch s n in
@@ -119,11 +140,12 @@ Section Step.
         | r :: rest =>
             {| y_ch := yupd (y_ch s) n {| yc_prog := yc_prog c; yc_wait := yc_wait c; yc_issued := yc_issued c;
                                          yc_results := yc_results c; yc_mail := yc_mail c;
-                                         yc_pend := rest; yc_replyq := yc_replyq c |};
+                                         yc_pend := rest; yc_replyq := yc_replyq c; yc_failed := yc_failed c |};
                y_outbuf := y_outbuf s; y_outwire := y_outwire s;
-               y_inwire := y_inwire s ++ [(n, answer n r)]; y_fail := false |}
+               y_inwire := y_inwire s ++ [(n, answer n r)]; y_fail := false; y_dead := y_dead s |}
         end
     | ARead =>
+        if y_dead s then s else
         match y_inwire s with
         | [] => s
         | (n, v) :: rest =>
@@ -131,12 +153,15 @@ Section Step.
             if N.of_nat (length (yc_replyq c)) <? qcap then
               {| y_ch := yupd (y_ch s) n {| yc_prog := yc_prog c; yc_wait := yc_wait c; yc_issued := yc_issued c;
                                            yc_results := yc_results c; yc_mail := yc_mail c;
-                                           yc_pend := yc_pend c; yc_replyq := yc_replyq c ++ [v] |};
-                 y_outbuf := y_outbuf s; y_outwire := y_outwire s; y_inwire := rest; y_fail := false |}
+                                           yc_pend := yc_pend c; yc_replyq := yc_replyq c ++ [v]; yc_failed := yc_failed c |};
+                 y_outbuf := y_outbuf s; y_outwire := y_outwire s; y_inwire := rest; y_fail := false; y_dead := y_dead s |}
             else
               {| y_ch := y_ch s; y_outbuf := y_outbuf s; y_outwire := y_outwire s;
-                 y_inwire := rest; y_fail := true |}
+                 y_inwire := rest; y_fail := true; y_dead := y_dead s |}
         end
+    | ADie =>
+        {| y_ch := y_ch s; y_outbuf := y_outbuf s; y_outwire := y_outwire s;
+           y_inwire := y_inwire s; y_fail := false; y_dead := true |}
     end.
 
   Definition yrun (s : sys) (sched : list act) : sys := fold_left ystep sched s.
@@ -144,12 +169,12 @@ End Step.
 
 Definition new_ychan (prog : list call) : ychan :=
   {| yc_prog := prog; yc_wait := false; yc_issued := []; yc_results := []; yc_mail := [];
-     yc_pend := []; yc_replyq := [] |}.
+     yc_pend := []; yc_replyq := []; yc_failed := false |}.
 
 (* every caller with its program, nothing in flight *)
 Definition init_sys (progs : N -> list call) : sys :=
   {| y_ch := fun n => new_ychan (progs n); y_outbuf := []; y_outwire := []; y_inwire := [];
-     y_fail := false |}.
+     y_fail := false; y_dead := false |}.
 
 (* everything of channel n that is on its way to the caller, in the order it will arrive:
    the reply queue, the replies on the wire, the answers the server owes, and the answers
